@@ -297,7 +297,7 @@ def _builtin(fa, b, e, args, kw, env):
             el = set()
             for x, xn in zip(args, e.args):
                 el |= elements_of(elements_of(x)) if isinstance(xn, ast.Starred) else elements_of(x)
-            return V(('ITER', src_of(a0), 'D', V(fresh('tuple', fa.site(e), depth_trunc(frozenset(el), 2)))))
+            return V(('ITER', src_of(a0), 'D', V(fresh('ziptuple', fa.site(e), depth_trunc(frozenset(el), 2)))))
         sts = [iter_state(a) for a in args]
         st = 'H' if all(s == 'H' for s in sts) else 'D'
         if len(args) <= 4:
@@ -464,7 +464,7 @@ def _ext(fa, nm, e, args, kw, env):
             el = set(fill)
             for x, xn in zip(args, e.args):
                 el |= elements_of(elements_of(x)) if isinstance(xn, ast.Starred) else elements_of(x)
-            return V(('ITER', src_of(a0), 'D', V(fresh('tuple', fa.site(e), depth_trunc(frozenset(el), 2)))))
+            return V(('ITER', src_of(a0), 'D', V(fresh('ziptuple', fa.site(e), depth_trunc(frozenset(el), 2)))))
         sts = [iter_state(a) for a in args]
         st = 'H' if any(s == 'H' for s in sts) else 'D'
         if len(args) <= 4:
